@@ -32,6 +32,7 @@ struct Task {
     std::vector<int> children;  // submitted when this task executes (in this order)
     std::vector<int> cancels;   // uids this task tries to cancel when it executes (after submitting children)
     int pause_us = 0;           // submitter pause before submitting this task
+    int chain_idx = -1;         // >= 0: link number in the deep chain (see gen)
     // recorded
     std::atomic<uint64_t> id{0};
     std::atomic<uint64_t> call{0}, ret{0};
@@ -55,6 +56,7 @@ struct Scenario {
     std::vector<int> exit_after;                 // per run: exit when this many executions happened (0 = quiesce mode)
     bool destroy_on_other_thread = false;
     int runner_delay_us = 0;
+    int deep_chain = 0;                          // length of the deep chain, 0 = none
     // runtime
     Loop *loop = nullptr;
     std::atomic<uint64_t> executed{0};
@@ -160,6 +162,22 @@ void gen(vh::Rng &r, Scenario &S, vh::Sig &sig) {
             if (r.chance(1, 12)) S.tasks[S.sub_scripts[s][i]]->cancels.push_back(S.sub_scripts[s][i + 1 + r.below(S.sub_scripts[s].size() - i - 1)]);
     int npre = r.chance(1, 2) ? (int)r.below(5) : 0;
     for (int i = 0; i < npre; ++i) { int u = new_task(S, -2, 1 + (int)r.below(2), -1); S.prerun.push_back(u); add_children(r, S, u, 1); }
+    // Deep chain: the shutdown drain is bounded to 100 generations (common_loop_run.cpp); what is left stays queued
+    // for the next run or for the destructor's own drain (another 100). A chain of 130..190 links, each submitting the
+    // next, that is still unrolling when the first run exits crosses that bound once and must still run every link
+    // exactly once (longer chains could legitimately lose links at destruction and are not generated).
+    if (r.chance(1, 10)) {
+        S.deep_chain = 130 + (int)r.below(61);
+        int cur = new_task(S, -2, 1 + (int)r.below(2), -1);
+        S.prerun.push_back(cur);
+        S.tasks[cur]->chain_idx = 0;
+        for (int i = 1; i < S.deep_chain; ++i) {
+            int c = new_task(S, -1, (int)r.below(3), cur);
+            S.tasks[c]->chain_idx = i;
+            S.tasks[cur]->children.push_back(c);
+            cur = c;
+        }
+    }
     S.nruns = 1 + (int)r.below(3);
     int ngap = S.nruns > 1 && r.chance(1, 2) ? 1 + (int)r.below(3) : 0;
     for (int i = 0; i < ngap; ++i) { int u = new_task(S, -3, E_INLOOP, -1); S.gap.push_back(u); }
@@ -169,15 +187,16 @@ void gen(vh::Rng &r, Scenario &S, vh::Sig &sig) {
         if (r.chance(1, 3)) S.exit_after.push_back(0);   // quiesce mode: wait for everything with no stimulus
         else { acc += 1 + r.below(total / S.nruns + 2); S.exit_after.push_back((int)acc); }
     }
+    if (S.deep_chain) S.exit_after[0] = 1 + (int)r.below(20);     // the first run exits while the chain is still young
     S.destroy_on_other_thread = r.chance(1, 2);
     static const int rd[] = {0, 0, 50, 300, 1500};
     S.runner_delay_us = r.pick(rd);
-    sig.add(nsub); sig.add(total); sig.add(S.nruns);
+    sig.add(nsub); sig.add(total); sig.add(S.nruns); sig.add(S.deep_chain);
     for (auto &t : S.tasks) { sig.add(t->owner); sig.add(t->entry); sig.add(t->children.size()); sig.add(t->cancels.size()); }
     for (int e : S.exit_after) sig.add(e);
     S.desc = vh::fmt("engine=%s submitters=%d tasks=%llu runs=%d exit_after=[", S.engine.c_str(), nsub, (unsigned long long)total, S.nruns);
     for (int e : S.exit_after) S.desc += vh::fmt("%d,", e);
-    S.desc += vh::fmt("] prerun=%zu gap=%zu destroy_other=%d", S.prerun.size(), S.gap.size(), (int)S.destroy_on_other_thread);
+    S.desc += vh::fmt("] prerun=%zu gap=%zu destroy_other=%d deep_chain=%d", S.prerun.size(), S.gap.size(), (int)S.destroy_on_other_thread, S.deep_chain);
 }
 
 struct ProcStat { char state = '?'; unsigned long cpu = 0; };
@@ -370,6 +389,13 @@ void run_scenario(Scenario &S, bool &nontrivial) {
                     break;
                 }
         }
+    }
+    if (S.deep_chain) {
+        uint64_t after_first = 0;
+        for (auto &tp : S.tasks) if (tp->chain_idx >= 0 && tp->exec_count.load() == 1 && tp->exec_tick.load() > S.runs[0].end) ++after_first;
+        vh::counter("deep_chain_scenarios");
+        vh::counter("deep_chain_links_left_over_by_the_first_bounded_drain", after_first);
+        if (after_first) nontrivial = true;
     }
     vh::counter("tasks", S.tasks.size());
     vh::counter("win_submitted_before_first_run", n_pre);
